@@ -2,6 +2,7 @@ package main
 
 import (
 	"fmt"
+	"os"
 	"strings"
 	"time"
 
@@ -18,8 +19,6 @@ import (
 //
 // publish (customize API) -> stop -> publish again at once -> wait twice the cleanup delay -> was the directory of the
 // LIVE second publish removed?
-
-
 
 var c10RepublishSeq int
 
@@ -77,6 +76,70 @@ func c10Republish(a []string) string {
 	return "kept"
 }
 
+// hls.ends <enable> <enable_https>  =>  <muxer alive after the input ended 0|1> <live playlist ends with ENDLIST 0|1|-> <rmall seen 0|1>
+//
+// a real ServerManager with HLS served over http only, https only, or both: publish (customize API), stop.
+func c10Ends(a []string) string {
+	fsl := &c10Fsl{mem: filesystemlayer.NewFslMemory(), open: map[string]bool{}, quiet: true}
+	old := hls.VerifSetFsl(fsl)
+	defer hls.VerifSetFsl(old)
+	conf := fmt.Sprintf(`{"conf_version":"%s","hls":{"enable":%s,"enable_https":%s,"url_pattern":"/hls/","out_path":"/c10ends/hls/","fragment_duration_ms":100,`+
+		`"fragment_num":2,"delete_threshold":1,"cleanup_mode":0,"use_memory_as_disk_flag":false},`+
+		`"default_http":{"http_listen_addr":"127.0.0.1:0","https_listen_addr":"127.0.0.1:0","https_cert_file":"","https_key_file":""},`+
+		`"log":{"level":6,"filename":"","is_to_stdout":false,"is_rotate_daily":false,"short_file_flag":false,"timestamp_flag":false,`+
+		`"timestamp_with_ms_flag":false,"level_flag":false,"assert_behavior":1}}`, base.ConfVersion, map[string]string{"1": "true", "0": "false"}[a[0]], map[string]string{"1": "true", "0": "false"}[a[1]])
+	sm := logic.NewServerManager(func(option *logic.Option) { option.ConfRawContent = []byte(conf) })
+	c10RepublishSeq++
+	name := fmt.Sprintf("c10ends%d", c10RepublishSeq)
+	ctx, err := sm.AddCustomizePubSession(name)
+	if err != nil {
+		return "add-failed"
+	}
+	msg := func(typ uint8, ts uint32, p []byte) base.RtmpMsg {
+		var m base.RtmpMsg
+		m.Header.Csid = 6
+		m.Header.MsgTypeId = typ
+		m.Header.MsgStreamId = 1
+		m.Header.TimestampAbs = ts
+		m.Header.MsgLen = uint32(len(p))
+		m.Payload = p
+		return m
+	}
+	_ = ctx.FeedRtmpMsg(msg(9, 0, unhx("17000000000164001fffe100196764001fac2ca4014016ec0440000003004000000c03c60ca801000468ee3cb0")))
+	for i := 0; i < 40; i++ { // the remuxer probes 16 messages for an audio track before it emits anything
+		_ = ctx.FeedRtmpMsg(msg(9, uint32(i*60), []byte{0x17, 1, 0, 0, 0, 0, 0, 0, 3, 0x65, 0x88, byte(i)}))
+	}
+	g := sm.GetGroup("", name)
+	started := g != nil && g.IsHlsMuxerAlive()
+	sm.DelCustomizePubSession(ctx)
+	alive := "0"
+	if g := sm.GetGroup("", name); g != nil && g.IsHlsMuxerAlive() {
+		alive = "1"
+	}
+	endlist := "-"
+	path := ""
+	for _, e := range fsl.log { // the muxer renames the finished playlist into place
+		if f := strings.Split(e, ":"); f[0] == "mv" && len(f) == 3 && strings.HasSuffix(f[2], "/playlist.m3u8") {
+			path = f[2]
+		}
+	}
+	if b, err := fsl.mem.ReadFile(path); path != "" && err == nil {
+		endlist = "0"
+		if strings.Contains(string(b), "#EXT-X-ENDLIST") {
+			endlist = "1"
+		}
+	}
+	if os.Getenv("C10_DEBUG") != "" {
+		fmt.Fprintln(os.Stderr, strings.Join(fsl.log, "\n"))
+	}
+	st := "0"
+	if started {
+		st = "1"
+	}
+	return "started=" + st + " alive=" + alive + " endlist=" + endlist
+}
+
 func init() {
+	ops["hls.ends"] = c10Ends
 	ops["hls.republish"] = c10Republish
 }
